@@ -30,8 +30,6 @@ impl RequestHandler<PrepareRenameRequest> for PrepareRenameRequestHandler {
             let file_path = &params.text_document.uri.to_file_path().unwrap();
 
             let source_line = params.position.line as usize;
-            let source_column = params.position.character as usize;
-
             if let Some(source_file) = codegen.tree().files.get(file_path) {
                 if source_line >= source_file.file.num_lines() {
                     // The client is ahead of (or behind) what we know about this document
@@ -45,8 +43,10 @@ impl RequestHandler<PrepareRenameRequest> for PrepareRenameRequestHandler {
 
                 // Try to find the start of identifier under the cursor
                 let start = line[..source_column]
-                    .rfind(|c: char| !c.is_alphanumeric() && c != '_')
-                    .map(|pos| pos + 1)
+                    .char_indices()
+                    .rev()
+                    .find(|(_, c)| !c.is_alphanumeric() && *c != '_')
+                    .map(|(pos, c)| pos + c.len_utf8())
                     .unwrap_or_default();
 
                 // Find the end of the identifier under the cursor
